@@ -197,6 +197,24 @@ pub assume_specification<T, F: FnMut(&T, &T) -> Ordering> [ <[T]>::sort_by ] (s:
         final(s)@.to_multiset() == old(s)@.to_multiset(),
         forall |i: int, j: int| #![trigger final(s)@[i], final(s)@[j]] 0 <= i < j < final(s)@.len() ==>
             exists |o: Ordering| #![trigger call_ensures(f, (&final(s)@[i], &final(s)@[j]), o)] call_ensures(f, (&final(s)@[i], &final(s)@[j]), o) && !(o is Greater);
+// ---- further std functions, specified so that code using them stays within the verifier's reach (A-STD)
+pub uninterp spec fn f64_is_finite(f: f64) -> bool;
+pub assume_specification [ f64::is_finite ] (f: f64) -> (r: bool)
+    ensures r == f64_is_finite(f);
+pub assume_specification [ i64::unsigned_abs ] (i: i64) -> (r: u64)
+    ensures r as int == (if i >= 0 { i as int } else { -(i as int) });
+pub assume_specification<T: PartialEq> [ <[T]>::contains ] (s: &[T], x: &T) -> (r: bool)
+    ensures <T as vstd::std_specs::cmp::PartialEqSpec>::obeys_eq_spec() ==> (r <==> exists |i: int| 0 <= i < s@.len() && vstd::std_specs::cmp::PartialEqSpec::eq_spec(&#[trigger] s@[i], x));
+pub assume_specification<T: Ord> [ <[T]>::binary_search ] (s: &[T], x: &T) -> (r: core::result::Result<usize, usize>)
+    ensures
+        r matches Ok(i) ==> (i < s@.len() && (<T as vstd::std_specs::cmp::OrdSpec>::obeys_cmp_spec() ==> vstd::std_specs::cmp::OrdSpec::cmp_spec(&s@[i as int], x) is Equal)),
+        r matches Err(i) ==> i <= s@.len();
+pub assume_specification<T, E, U, F: FnOnce(T) -> core::result::Result<U, E>> [ core::result::Result::<T, E>::and_then ] (r: core::result::Result<T, E>, f: F) -> (o: core::result::Result<U, E>)
+    requires r matches Ok(t) ==> call_requires(f, (t,)),
+    ensures match r { Ok(t) => call_ensures(f, (t,), o), Err(e) => o == Err::<U, E>(e) };
+pub assume_specification<F: FnOnce() -> Ordering> [ Ordering::then_with ] (a: Ordering, f: F) -> (r: Ordering)
+    requires a is Equal ==> call_requires(f, ()),
+    ensures if a is Equal { call_ensures(f, (), r) } else { r == a };
 pub uninterp spec fn trimmed(s: Seq<char>) -> Seq<char>;
 pub uninterp spec fn count_char(s: Seq<char>, c: char) -> nat;
 pub assume_specification [ str::trim ] (s: &str) -> (r: &str)
